@@ -364,6 +364,7 @@ pub fn resolve_inputs(spec: &str, seed: u64) -> Vec<Input> {
             "ops" => out.extend(operator_inputs()),
             "manyimp" => out.extend(many_import_inputs()),
             "offsets" => out.extend(offset_inputs()),
+            "nocode" => out.extend(nocode_inputs()),
             "bodysizes" => out.extend(body_size_inputs(false)),
             "bodysizes-big" => out.extend(body_size_inputs(true)),
             "dwarfed" => out.extend(dwarfed_inputs(seed, f[1].parse().unwrap())),
@@ -376,10 +377,12 @@ pub fn resolve_inputs(spec: &str, seed: u64) -> Vec<Input> {
             "fixtures" => {
                 out.extend(fixture_inputs().into_iter().filter(|i| absmod::validate(&i.bytes).is_ok()));
                 out.extend(offset_inputs());
+                out.extend(nocode_inputs());
             }
             "fixtures-all" => {
                 out.extend(fixture_inputs());
                 out.extend(offset_inputs());
+                out.extend(nocode_inputs());
             }
             "file" => {
                 let bytes = std::fs::read(f[1]).expect("input file");
@@ -1291,6 +1294,19 @@ pub fn body_size_inputs(big: bool) -> Vec<Input> {
         }
     }
     out
+}
+
+/// modules without a code section (data-only, import-only shims, declarations only, the empty module)
+pub fn nocode_inputs() -> Vec<Input> {
+    let wats = [
+        "(module (memory 1) (data (i32.const 0) \"abc\"))",
+        "(module (import \"env\" \"f\" (func)) (memory 1) (data (i32.const 8) \"x\") (export \"g\" (func 0)))",
+        "(module (table 2 funcref) (global (export \"x\") i32 (i32.const 7)))",
+        "(module (import \"env\" \"m\" (memory 1)) (data (i32.const 0) \"hello\") (data (i32.const 16) \"\"))",
+        "(module (import \"env\" \"t\" (table 4 funcref)) (import \"env\" \"f\" (func)) (elem (i32.const 1) func 0))",
+        "(module)",
+    ];
+    wats.iter().enumerate().map(|(k, w)| Input { id: format!("nocode-{}", k), bytes: wat::parse_str(w).unwrap(), source: format!("nocode:{}", k) }).collect()
 }
 
 /// one module per post-MVP proposal that needs exactly (or at least) that proposal, plus MVP modules
